@@ -177,6 +177,20 @@ func classTCPPortsFlags() FInput {
 		}
 		g.add(withSum(ipFrame(macA, macB, g.sip(), loIP, 6, tcpSeg(30000+fl, 8000+fl, 5, byte(fl), nil)), fl%3 != 0))
 	}
+	// SYNs as real scanners and stacks send them (valid checksum; the last option ends exactly
+	// at the end of the header)
+	for i, o := range [][]byte{
+		{2, 4, 5, 0xb4}, // nmap -sS: MSS only
+		{2, 4, 5, 0xb4, 4, 2, 8, 10, 0, 1, 2, 3, 0, 0, 0, 0, 1, 3, 3, 7},                // Linux connect()
+		{2, 4, 5, 0xb4, 1, 3, 3, 8, 1, 1, 4, 2},                                         // Windows
+		{2, 4, 5, 0xb4, 1, 3, 3, 6, 1, 1, 8, 10, 9, 9, 9, 9, 0, 0, 0, 0, 4, 2, 0, 0},    // macOS (ends with EOL padding)
+		{2, 4, 2, 0x18, 1, 1, 4, 2},                                                     // MSS, NOP NOP, SACK permitted
+		{3, 3, 7, 1}, {1, 1, 4, 2}, {8, 10, 1, 2, 3, 4, 5, 6, 7, 8, 1, 1}, {4, 2, 1, 1}, // single options + padding
+	} {
+		for _, ok := range []bool{true, false} {
+			g.add(withSum(ipFrame(macA, macB, g.sip(), loIP, 6, tcpSeg(50000+i, 9000+i, 5+len(o)/4, 2, o)), ok))
+		}
+	}
 	return FInput{Class: "tcp-ports-flags", Frames: g.frames, Ticks: 3}
 }
 
